@@ -2,6 +2,7 @@
 """C07 -- resolvers only receive arguments that conform to the declared input types."""
 import itertools
 import json
+import random
 
 from py_gql import build_schema, graphql_blocking
 from py_gql.sdl import SchemaDirective
@@ -169,6 +170,12 @@ def corpus():
     for t in (G.N("Point", True), G.L(G.N("Point")), G.N("Point")):
         ex([{"name": "p", "py": "p_py", "type": t, "default": None}],
            "{ f(p: {x: 1, zzUnknown: 2}) }", {}, "unknown-field")
+    # /repo 9ab1e9d: a non-finite JSON number for Int (json.loads("1e999")) is a coercion error
+    for j in (float("inf"), float("-inf"), float("nan")):
+        val(G.N("Int"), j, "fixed:int-infinite-float-overflow")
+        val(G.L(G.N("Int", True)), [1, j], "fixed:int-infinite-float-overflow")
+    ex([{"name": "x", "py": "x_py", "type": G.N("Int"), "default": None}],
+       "query ($v: Int) { f(x: $v) }", {"v": float("inf")}, "fixed:int-infinite-float-overflow")
     # a user scalar raising an arbitrary exception: it bubbles up, also past
     # CoercionErrors already collected for earlier items / fields
     val(G.N("Odd"), 13, "user-exception")
@@ -549,6 +556,116 @@ def _abs_query(case):
     return "query Q%s { items { ... on Thing %s } }" % (case["vardefs"], body)
 
 
+_INF = float("inf")
+EDGE_NUMBERS = [_INF, -_INF, float("nan"), 1e308, -1e308, -0.0, 1.0, 2 ** 53 + 1, 10 ** 400, -(10 ** 400),
+                2.0 ** 31, -2.0 ** 31 - 1, 2147483647.0, 0.5]
+
+
+def _edge_ok(tname, j):
+    """edge numbers outside the float-text domain of the model at that scalar"""
+    if isinstance(j, float) and (j != j or abs(j) >= 1e16) and tname == "String":
+        return False        # str(float) uses exponent / inf / nan spellings
+    if isinstance(j, int) and not isinstance(j, bool) and abs(j) > 2 ** 53 and abs(j) < 2 ** 1023 and tname == "Float":
+        return False        # float(int) rounds
+    return True
+
+
+DERIVATIONS = ["visibility", "clone-assign", "camel", "extend"]
+
+
+def _derive(b, sd, how, hide):
+    """a schema derived from b.schema AFTER b.schema has been used"""
+    from py_gql.schema.transforms import transform_schema, VisibilitySchemaTransform, CamelCaseSchemaTransform
+    from py_gql.sdl import extend_schema
+    tname, fname = hide
+    if how == "visibility":
+        class Hide(VisibilitySchemaTransform):
+            def is_input_field_visible(self, typename, fieldname):
+                return not (typename == tname and fieldname == fname)
+        return transform_schema(b.schema, Hide())
+    if how == "clone-assign":
+        derived = b.schema.clone()
+        t = derived.types[tname]
+        t.fields = [f for f in t.fields if f.name != fname]
+        return derived
+    if how == "camel":
+        return transform_schema(b.schema, CamelCaseSchemaTransform())
+    return extend_schema(b.schema, "extend input %s { addedLater: Int = 5 }" % tname)
+
+
+def _warm(b, sd):
+    """use every input object type of the source schema once (variable route)"""
+    rng = random.Random(7)
+    for td in sd["types"]:
+        if td["kind"] == "input":
+            for _ in range(3):
+                j = G.gen_json(rng, sd, G.N(td["name"]), 2, None)
+                try:
+                    coerce_value(j, b.types[td["name"]])
+                except Exception:  # noqa
+                    pass
+            b.types[td["name"]].field_map  # noqa
+
+
+def _derived_setup(case):
+    """fresh source schema -> warm -> derive; returns (builder, derived schema, its description)"""
+    sd = case["source"]
+    b = G.Built(sd, case.get("args", ()))
+    _warm(b, sd)
+    derived = _derive(b, sd, case["derive"]["how"], case["derive"]["hide"])
+    return b, derived, G.dump_sd(derived, sd)
+
+
+def _derived_cases(rng, quick):
+    """cases on schemas derived from an already used source schema: the model is
+    given the derived schema as dumped from `.fields`"""
+    out = []
+    src = G.fixed_schema()
+    # underscore names so that the camel-case transform has something to rename
+    for td in src["types"]:
+        if td["name"] == "Point":
+            td["fields"].append({"name": "extra_note", "py": "extra_note", "type": G.N("String"), "default": None})
+    # (not Point.label: Node.origin's declared default mentions it, the derived
+    # schema would carry a default that is no value of its type)
+    hides = [["Point", "tags"], ["Point", "extra_note"], ["Node", "color"], ["Node", "next"]]
+    for how in DERIVATIONS:
+        for hide in hides:
+            tname, fname = hide
+            if how == "extend" and tname != "Node":
+                continue     # Node.origin's default is a Point value: extending Point with a
+                #              defaulted field would leave that default non-conforming
+            probe = {"kind": "val", "source": src, "derive": {"how": how, "hide": hide},
+                     "type": G.N(tname), "json": None, "label": "derived:" + how}
+            _b, _d, dsd = _derived_setup(probe)
+            camel = {"extra_note": "extraNote"}
+            for _ in range(2 if quick else 10):
+                j = G.gen_json(rng, dsd, G.N(tname), 2, None) or {}
+                variants = [j, dict(j, **{fname: G.gen_json(rng, src, [f["type"] for td in src["types"] if td["name"] == tname
+                                                                         for f in td["fields"] if f["name"] == fname][0], 1, None)})]
+                if how == "camel":
+                    variants.append(dict(j, extra_note="old spelling"))
+                    variants.append(dict(j, extraNote="new spelling"))
+                if how == "extend":
+                    variants.append(dict(j, addedLater=3))
+                for v in variants:
+                    out.append({"kind": "val", "source": src, "derive": {"how": how, "hide": hide},
+                                "schema": dsd, "type": G.N(tname), "json": v, "label": "derived:" + how})
+                    out.append({"kind": "exec", "source": src, "derive": {"how": how, "hide": hide},
+                                "schema": dsd,
+                                "args": [{"name": "p", "py": "p_py", "type": G.N(tname), "default": None}],
+                                "query": "query Q($v: %s) { f(p: $v) }" % tname, "raw": {"v": v},
+                                "label": "derived:" + how})
+                    try:
+                        text = G.lit_text(dsd, G.N(tname), v)
+                    except TypeError:
+                        continue
+                    out.append({"kind": "exec", "source": src, "derive": {"how": how, "hide": hide},
+                                "schema": dsd,
+                                "args": [{"name": "p", "py": "p_py", "type": G.N(tname), "default": None}],
+                                "query": "query Q { f(p: %s) }" % text, "raw": {}, "label": "derived:" + how})
+    return out
+
+
 GRID_VALUES = [None, 13, [1, 2, 13], 0, 1, -1, 2 ** 31 - 1, -2 ** 31, 2 ** 31, -2 ** 31 - 1, 1.5, 2.0, True, False,
                "", "abc", "RED", "NOPE", "12", [], [None], [1], [[1]], ["RED"], {}, {"x": 1},
                {"x": None}, {"x": 1, "y": None}, {"x": 1, "zz": 2}, {"value": 1}, [{"x": 2}]]
@@ -561,6 +678,10 @@ def _grid(sd, maxdepth):
             t = shape(n)
             for j in GRID_VALUES:
                 yield t, j
+            for j in EDGE_NUMBERS:
+                if _edge_ok(n, j):
+                    yield t, j
+                    yield t, [j]
 
 
 def generate(rng, tier):
@@ -610,8 +731,23 @@ def generate(rng, tier):
         grid = rng.sample(grid, 500)
     for t, j in grid:
         cases.append({"kind": "val", "schema": fixed, "type": t, "json": j, "label": "grid"})
+        flat = j[0] if isinstance(j, list) and len(j) == 1 else j
+        if isinstance(flat, float) and (flat != flat or abs(flat) == _INF):
+            continue            # no literal spelling
+        if (isinstance(flat, int) and not isinstance(flat, bool) and abs(flat) >= 2 ** 1023
+                and G.ty_name(t) in ("Float", "Any1")):
+            continue            # a number literal that overflows to inf: outside the decimal-text model
         cases.append({"kind": "lit", "schema": fixed, "type": t, "lit": G.lit_text(fixed, t, j), "vars": {},
                       "label": "grid"})
+    # JSON-number edge values at every scalar position, through a request
+    for n in ("Int", "Float", "String", "ID", "Boolean", "Any1", "Tag", "Odd"):
+        for j in EDGE_NUMBERS:
+            if not _edge_ok(n, j) or (quick and rng.random() < 0.5):
+                continue
+            cases.append({"kind": "exec", "schema": fixed,
+                          "args": [{"name": "x", "py": "x_py", "type": G.N(n), "default": None}],
+                          "query": "query Q($v: %s) { f(x: $v) }" % n, "raw": {"v": j}, "label": "edge-number"})
+    cases.extend(_derived_cases(rng, quick))
     return cases
 
 
@@ -809,9 +945,33 @@ def _run_abs(case):
     return obs
 
 
+def _run_derived(case):
+    b, derived, dsd = _derived_setup(case)
+    if json.dumps(dsd, sort_keys=True) != json.dumps(case["schema"], sort_keys=True):
+        return {"harness_error": "derived schema description changed"}
+    t = case.get("type")
+    if case["kind"] == "val":
+        ty = derived.types[t[2]]
+        return {"r": _call(lambda: coerce_value(case["json"], ty))}
+    b.schema = derived
+    b.field = derived.query_type.field_map["f"]
+    doc = parse(case["query"])
+    op = doc.definitions[0]
+    node = op.selection_set.selections[0]
+    obs = {"vars": _call(lambda: coerce_variable_values(derived, op, case["raw"]))}
+    if "ok" in obs["vars"]:
+        coerced = obs["vars"]["ok"]
+        obs["args"] = _call(lambda: coerce_argument_values(b.field, node, coerced))
+    obs["exec"] = _run_request(b, doc, case["raw"], validators=[])
+    obs["validated"] = _run_request(b, doc, case["raw"])
+    return obs
+
+
 def run_impl(case):
     k = case["kind"]
     sd = case["schema"]
+    if "derive" in case:
+        return _run_derived(case)
     if k == "val":
         b = _built(sd)
         return {"r": _call(lambda: coerce_value(case["json"], b.ty(case["type"])))}
@@ -1030,6 +1190,10 @@ def _dir_checks(case, obs):
     return out
 
 
+def _js(v):
+    return json.dumps(v, sort_keys=True)     # nan-safe comparison
+
+
 def _is_violation_crash(case, r):
     """any exception other than the documented families is a violation, except
     the arbitrary exception of the raising user scalar where it was planted"""
@@ -1037,9 +1201,13 @@ def _is_violation_crash(case, r):
     if not c:
         return False
     if c.startswith("user:"):
-        lab = case.get("label", "")
-        return not (lab.startswith("user-exception") or lab == "grid")
+        return not _has_unlucky(case)
     return True
+
+
+def _has_unlucky(case):
+    """the value on which the raising user scalar raises occurs in the inputs"""
+    return "13" in json.dumps([case.get(k) for k in ("json", "lit", "query", "raw", "vars")])
 
 
 def direct_checks(case, obs):
@@ -1065,17 +1233,17 @@ def direct_checks(case, obs):
     if "validation" in va:
         if va["called"]:
             out.append(("rejected-before-any-resolver-runs", None))
-    elif (str(va.get("crash", "")).startswith("user:") and "ok" not in ex
-          and case.get("label", "").startswith("user-exception")):
+    elif str(va.get("crash", "")).startswith("user:") and "ok" not in ex and _has_unlucky(case):
         # the validator ran the raising user scalar on a literal that execution
         # never reached (another argument was refused first): no kwargs either way
         pass
-    elif ("ok" in va) != ("ok" in ex) or va.get("ok") != ex.get("ok") or va.get("rej") != ex.get("rej"):
+    elif (("ok" in va) != ("ok" in ex) or _js(va.get("ok")) != _js(ex.get("ok"))
+          or va.get("rej") != ex.get("rej")):
         out.append(("validated-and-unvalidated-requests-give-same-kwargs", None))
     tw = obs.get("twin")
     if tw is not None and "ok" in ex and "ok" in tw["single"]:
         # every field node gets the arguments written at that node
-        if tw["calls"] != [ex["ok"], tw["single"]["ok"]]:
+        if _js(tw["calls"]) != _js([ex["ok"], tw["single"]["ok"]]):
             out.append(("each-field-node-gets-its-own-arguments", None))
     if case.get("label") in _MUST_REJECT and "ok" in va:
         out.append(("structurally-wrong-rejected:" + case["label"], None))
